@@ -173,15 +173,16 @@ func propC09(reps int) func(c09Case) hh.Verdict {
 
 func TestC09(t *testing.T) {
 	h := hh.Start(t, "C09",
-		"cases = one (schema, input, mode) built K times with permuted schema-field insertion order and permuted input-map insertion order, each executed R times (K x R = 4x3 quick, 8x8 thorough); the visit order of struct fields is observed through recorder tests; non-trivial = some struct has >=2 fields and >=2 distinct visit orders were actually observed among the runs; distinct = FNV-1a of the case JSON",
+		"cases = one (schema, input, mode) built K times with permuted schema-field insertion order and permuted input-map insertion order, each executed R times (K x R = 4x3 quick, 6x6 thorough); the visit order of struct fields is observed through recorder tests; non-trivial = some struct has >=2 fields and >=2 distinct visit orders were actually observed among the runs; distinct = FNV-1a of the case JSON",
 		"pure metamorphic oracle (no specification): all runs must agree on the issue multiset (path, code, type, message), the key set of the issue map, and on success the destination; $first must be exactly one of the issues present",
 		"PostTransforms never fail and struct/slice level tests are data-independent (a failing PostTransform, or a test reading data that a gated PostTransform may or may not have changed, is order-dependent by the documented global gating)",
 		"forcing relies on the default toolchain's map layout (<=8 entries: iteration is a rotation of insertion order); the orders actually taken are measured")
 	defer h.Finish()
-	K, R := h.N(4, 8), h.N(3, 8)
+	K, R := h.N(4, 6), h.N(3, 6)
 	for _, mode := range []string{"parse", "validate"} {
 		cfg := model.DefaultCfg(mode)
 		cfg.NoDataTests, cfg.ManyFields = true, true
+		cfg.PPre = 0.08 // Preprocess wrappers (Parse only; the check is spec-free)
 		cfg.MaxFields = 5
 		cfg.PCatch, cfg.PVary, cfg.PAbsent, cfg.PJunk, cfg.PLight = 0.3, 0.3, 0.12, 0.06, 0.3
 		cfg.RootKinds = []string{model.KStruct, model.KStruct, model.KSlice, model.KPtr, model.KStruct}
@@ -202,7 +203,7 @@ func TestC09(t *testing.T) {
 			}
 			return cc
 		}
-		hh.Sub(h, mode, h.N(6000, 20000), gen, propC09(R))
+		hh.Sub(h, mode, h.N(6000, 7000), gen, propC09(R))
 	}
 	_ = sort.Strings
 }
